@@ -162,5 +162,54 @@ pub proof fn lemma_truthy_hint(sxr: &SExp)
 //@ before stmt @<if verif_int_mode()>@
     proof { lemma_truthy_hint(&*sexp); }
 //@ end
+
+// ---- argument references generated for operator application (apply_op): reference number j is the
+// consensus path "rest k+j times, then first" = 3 * 2^(k+j) - 1 (5, 11, 23, ... for k = 1)
+pub open spec fn arg_ref(k: nat) -> int { 3 * (pow2(k) as int) - 1 }
+pub open spec fn refs_rel(k: nat, refs: SExp, args: SExp) -> bool
+    decreases args
+{
+    match args {
+        SExp::Cons(_, a, b) => refs matches SExp::Cons(_, rh, rt) && (*rh matches SExp::Integer(_, i) && bi(i) == arg_ref(k)) && refs_rel(k + 1, *rt, *b),
+        _ => refs == args,
+    }
+}
+pub open spec fn rest_n(t: Tree, k: nat) -> Option<Tree>
+    decreases k
+{
+    if k == 0 { Some(t) } else { match t { Tree::Pair(_, b) => rest_n(*b, (k - 1) as nat), Tree::Atom(_) => None } }
+}
+pub proof fn lemma_arg_ref_selects(t: Tree, k: nat)
+    ensures tree_path(arg_ref(k), t) == (match rest_n(t, k) { Some(Tree::Pair(a, _)) => Some(*a), _ => None })
+    decreases k
+{
+    lemma2_to64();
+    lemma_pow2_pos(k);
+    reveal_with_fuel(tree_path, 3);
+    reveal_with_fuel(rest_n, 2);
+    if k == 0 {
+        assert(arg_ref(0) == 2);
+        match t { Tree::Pair(a, _) => { assert(tree_path(2, t) == tree_path(1, *a)); } Tree::Atom(_) => {} }
+    } else {
+        lemma_pow2_unfold(k);
+        let p = arg_ref(k);
+        assert(p == 2 * arg_ref((k - 1) as nat) + 1);
+        assert(p >= 2 && p % 2 == 1 && p / 2 == arg_ref((k - 1) as nat));
+        match t { Tree::Pair(_, b) => { lemma_arg_ref_selects(*b, (k - 1) as nat); } Tree::Atom(_) => {} }
+    }
+}
+
+//@ note generate_argument_refs: the j-th generated reference is the path 3*2^(k+j)-1; by lemma_arg_ref_selects that path selects the j-th argument from an environment whose k-th tail is the argument list
+//@ extract fn generate_argument_refs from src/compiler/clvm.rs
+//@ canary first_not_rest @<let next_index = bi_one() + 2_i32.to_bigint().unwrap() * start.clone();>@ => @<let next_index = 2_i32.to_bigint().unwrap() * start.clone();>@
+//@ sig r
+    requires exists|k: nat| bi(start) == #[trigger] arg_ref(k)
+    ensures forall|k: nat| bi(start) == #[trigger] arg_ref(k) ==> refs_rel(k, *r, *sexp)
+    decreases *sexp
+//@ after stmt @<let next_index>@
+            proof {
+                assert forall|k: nat| bi(start) == #[trigger] arg_ref(k) implies bi(next_index) == arg_ref(k + 1) by { lemma_pow2_unfold(k + 1); }
+            }
+//@ end
 }
 fn main() {}
